@@ -13,7 +13,7 @@ import json, os, shutil, subprocess, sys, time, glob, hashlib, tempfile, signal,
 
 VERIF = os.path.dirname(os.path.abspath(__file__))
 HARNESS = os.path.join(VERIF, "harness")
-REPO = os.path.abspath(os.environ.get("VERIF_REPO", "/repo"))
+REPO = os.path.abspath(os.environ.get("VERIF_REPO") or "/repo")
 # a tree other than /repo (a scratch worktree with a seeded change applied) gets its own build and
 # output directories, so that such runs never touch the binaries, evidence or violations of /repo runs
 ALT = REPO != "/repo"
@@ -154,6 +154,9 @@ def run_procs(specs, timeout):
     return res
 
 
+GEN_FAULT_SAMPLES = []
+
+
 def merge(files):
     tests, distinct, violations, known, inconc, capped = {}, set(), [], [], 0, False
     for f in files:
@@ -168,6 +171,9 @@ def merge(files):
             if l not in known:
                 known.append(l)
         inconc += d.get("inconclusive", 0)
+        for m in (d.get("generator_fault_samples") or []):
+            if len(GEN_FAULT_SAMPLES) < 3:
+                GEN_FAULT_SAMPLES.append(m)
         for name, t in (d.get("tests") or {}).items():
             m = tests.setdefault(name, {"evaluations": 0, "nontrivial_evaluations": 0, "labels": {}, "excluded": {}, "samples": [], "rule": "", "wall_s": 0.0, "requested": 0})
             m["evaluations"] += t.get("evaluations", 0)
@@ -333,6 +339,15 @@ def _check(prop_id, cfg, tier, seed, tmp, start, replay_file):
     if not replay_file:
         os.makedirs(EVIDENCE_DIR, exist_ok=True)
         json.dump(ev, open(os.path.join(EVIDENCE_DIR, prop_id + ".json"), "w"), indent=1, ensure_ascii=False)
+    starved = resource_starved(tmp)
+    if starved and vio_lines:
+        # a full disk makes compilers, linkers and workers fail in ways an oracle cannot tell from a wrong
+        # result: nothing found under that condition is reported (exit 2 = inconclusive, never a violation)
+        log("%s: %d violation candidate(s) discarded, run is inconclusive" % (starved, len(vio_lines)))
+        for l in vio_lines:
+            log("discarded:", l)
+        print("[%s %s seed=%d] evaluations=%d inconclusive: %s" % (prop_id, tier, seed, evaluations, starved))
+        return 2
     for l in vio_lines:
         print(l)
     print("[%s %s seed=%d] evaluations=%d distinct_nontrivial=%d violations=%d known=%d inconclusive=%d wall=%.1fs" % (
@@ -341,6 +356,13 @@ def _check(prop_id, cfg, tier, seed, tmp, start, replay_file):
         log("note:", n)
     if vio_lines:
         return 1
+    gen_faults = sum(t["labels"].get("generator_fault", 0) for t in tests.values())
+    if gen_faults:
+        # cases whose oracle blamed the harness's own generator (program outside its intended domain): discarded
+        log("%d case(s) discarded as generator faults; first: %s" % (gen_faults, " || ".join(GEN_FAULT_SAMPLES)[:1500]))
+        if gen_faults > max(3, evaluations // 100):
+            log("generator health: more than 1% of the cases were generator faults: inconclusive")
+            return 2
     if replay_file:
         return 0 if not infra else 2
     if infra and (evaluations == 0 or evaluations * 2 < requested):
@@ -348,6 +370,17 @@ def _check(prop_id, cfg, tier, seed, tmp, start, replay_file):
     if evaluations == 0:
         return 2
     return 0
+
+
+def resource_starved(*dirs):
+    """non-empty when a filesystem the run writes to has (almost) no room left"""
+    for d in list(dirs) + [BUILD, os.path.expanduser("~/.cache"), "/tmp"]:
+        try:
+            if d and os.path.exists(d) and shutil.disk_usage(d).free < 1 << 30:
+                return "less than 1 GiB free on the filesystem of %s" % d
+        except OSError:
+            pass
+    return ""
 
 
 def setup():
